@@ -111,6 +111,16 @@ Proof.
 Qed.
 Print Assumptions C12_no_coupling_zero.
 
+(* both directional log arguments (hence the causalities) do not change when the innovation covariance
+   is multiplied by any c <> 0: no hidden scale in the routine *)
+Theorem C12_scale_invariant : forall a cov z c,
+  ~ c == 0 -> ~ q00 cov == 0 -> ~ q11 cov == 0 ->
+  ~ xx_auto_of (transfer (Aw a z)) cov == 0 -> ~ yy_auto_of (transfer (Aw a z)) cov == 0 ->
+  gc_y2x (granger_xy a (q2scale c cov) z) == gc_y2x (granger_xy a cov z) /\
+  gc_x2y (granger_xy a (q2scale c cov) z) == gc_x2y (granger_xy a cov z).
+Proof. intros a cov z c. unfold granger_xy. apply gc_scale_cov. Qed.
+Print Assumptions C12_scale_invariant.
+
 (* the analyzer's matrices hold exactly the pairwise results at the requested index pairs and
    NaN (None) everywhere else, for every ij list (any order, repetitions allowed) *)
 Theorem C12_dict2arr_spec : forall (V : Type) (f : key -> V) ij k,
